@@ -275,9 +275,15 @@ func scan(r row, res *Result, input []byte, t atype) error {
 			r[t.pos] = input[:32]
 		}
 	case 'd':
+		if len(input) < 32 {
+			return errors.New("EOF")
+		}
 		length := int(bint.Decode(input[:32]))
 		if length == 0 {
 			return nil
+		}
+		if length < 0 || length > len(input) {
+			return errors.New("EOF")
 		}
 		if len(input) < 32+length {
 			return errors.New("EOF")
@@ -315,6 +321,9 @@ func scan(r row, res *Result, input []byte, t atype) error {
 					return errors.New("EOF")
 				}
 				offset := int(bint.Decode(input[pos : pos+32]))
+				if offset < 0 || offset > len(input) {
+					return errors.New("EOF")
+				}
 				if len(input) < start+offset {
 					return errors.New("EOF")
 				}
@@ -347,7 +356,7 @@ func scan(r row, res *Result, input []byte, t atype) error {
 					return errors.New("EOF")
 				}
 				offset := int(bint.Decode(input[pos : pos+32]))
-				if len(input) < offset {
+				if offset < 0 || len(input) < offset {
 					return errors.New("EOF")
 				}
 				err := scan(r, res, input[offset:], f)
